@@ -2,7 +2,7 @@ PROPERTY = "C01"
 LEVEL = "proof"
 # Props.C01: the property theorems; Lemmas.CharsLink / Lemmas.LexerMask: the link theorems that tie the model to
 # the regenerated tables and constants (audited together so that a changed table shows up as a failed obligation)
-LEAN_MODULES = ["CifModel.Props.C01", "CifModel.Props.C01parse", "CifModel.Props.C01Render", "CifModel.Lemmas.ParserStructure", "CifModel.Lemmas.CharsLink", "CifModel.Lemmas.LexerMask",
+LEAN_MODULES = ["CifModel.Props.C01", "CifModel.Props.C01parse", "CifModel.Props.C01Render", "CifModel.Lemmas.ParserStructure", "CifModel.Lemmas.DecodeSpec", "CifModel.Lemmas.CharsLink", "CifModel.Lemmas.LexerMask",
                 "CifModel.Lemmas.LexQuiet",   # C03_quiet_key_valid: built and audited here until C03.py imports it
                 "CifModel.Props.ReviewC01"]
 REQUIRED = [
@@ -18,6 +18,9 @@ REQUIRED = [
     "CifModel.C01_cif2_brackets_invalid", "CifModel.C01_error_free_policy_independent", "CifModel.C01_cstr_id",
     "CifModel.C01_structure", "CifModel.C01_parse_render_partial", "CifModel.C01_layout_independent",
     "CifModel.C01_feeds_of_lex", "CifModel.C01_feeds_instance", "CifModel.C01_parse_render_instance",
+    # the model's text-field decoder against the specification's (Lemmas/DecodeSpec.lean)
+    "CifModel.C01_decodeText_spec", "CifModel.C01_wfVal_enc_of_spec", "CifModel.C01_wfVal_enc_plain",
+    "CifModel.Lemmas.DecodeSpec.decodeText_marked_general",
     # the lexical glue in general and the end-to-end theorems (Props/C01Render.lean, Lemmas/FeedsRender.lean)
     "CifModel.C01_feeds", "CifModel.C01_parse_render", "CifModel.C01_layout_independent_render",
     "CifModel.C01_presentation_independent", "CifModel.C01_render_instance_hyps", "CifModel.C01_render_instance",
@@ -64,6 +67,10 @@ PARTIAL = [
     "and C01_presentation_independent follow.  C01_feedOk is a predicate of its own beside gJ's layoutOk (neither implies the "
     "other: a text field directly behind a table key is not renderable by the printer and is refused; optional separators may "
     "not begin with a comment when they follow a value); "
+    "The well-formedness predicate admits a text field `.enc text body` when the MODEL's decode_text maps body to text; "
+    "C01_decodeText_spec / C01_wfVal_enc_of_spec / C01_wfVal_enc_plain tie that to the SPECIFICATION's decoder (Spec/TextProtocol.lean): "
+    "every marked body with any admissible prefix, folded or not, any blanks behind the marker, and every unmarked body are admitted "
+    "(options: unfolding and prefix removal on).  "
     "C01_parse_render_full stays a def.  Instances "
     "incl. the three combinations named in the property's rationale are evaluated by the kernel, and the quantifier over documents "
     "x layouts at the character level is covered by the `parsedoc` correspondence family (grammar-directed "
